@@ -84,6 +84,10 @@ struct Th {
     cv_spurious_ok: Option<usize>,
     start_ev: Option<usize>,
     in_region: bool,
+    /// write events this thread has read or written
+    seen: Vec<usize>,
+    /// ... as of its last definite yield
+    seen_before_yield: Vec<usize>,
 }
 
 #[derive(Clone, Debug, Default)]
@@ -153,14 +157,22 @@ pub struct MachineCfg {
     pub switch_only_at_branch_points: bool,
     /// C19: a thread between its stop_exploring() and explore() is not preempted
     pub regions_atomic: bool,
+    /// Must-side deviation D-sc-load-follows-execution-order (attribution of known finding K8): a
+    /// SeqCst load never reads a SeqCst store once a mo-later SeqCst store to the same location
+    /// has been executed (loom takes the execution order for the SC order)
+    pub sc_load_skips_overwritten_sc_store: bool,
+    /// Must-side deviation D-yield-prunes-seen-stores (attribution of known finding K9): after a
+    /// yield a thread is never offered a store it had already seen before the yield once a
+    /// modification-order-later store exists (loom's progress heuristic, applied to every load)
+    pub yield_prunes_seen: bool,
 }
 
 impl MachineCfg {
     pub fn must() -> MachineCfg {
-        MachineCfg { reading: Reading::Must, dev: Deviation::default(), sc_atomics: false, rmw_reads_mo_max_only: false, switch_only_at_branch_points: true, regions_atomic: false }
+        MachineCfg { reading: Reading::Must, dev: Deviation::default(), sc_atomics: false, rmw_reads_mo_max_only: false, switch_only_at_branch_points: true, regions_atomic: false, sc_load_skips_overwritten_sc_store: false, yield_prunes_seen: false }
     }
     pub fn may() -> MachineCfg {
-        MachineCfg { reading: Reading::May, dev: Deviation::default(), sc_atomics: false, rmw_reads_mo_max_only: false, switch_only_at_branch_points: false, regions_atomic: false }
+        MachineCfg { reading: Reading::May, dev: Deviation::default(), sc_atomics: false, rmw_reads_mo_max_only: false, switch_only_at_branch_points: false, regions_atomic: false, sc_load_skips_overwritten_sc_store: false, yield_prunes_seen: false }
     }
 }
 
@@ -261,6 +273,8 @@ impl<'p> Machine<'p> {
             probe_blocked_then_woken: 0,
             probe_rmw_nonlatest: 0,
         };
+        // main creates the atomics: it has "seen" their initial values (relevant to deviation K9)
+        m.th[0].seen = (0..p.atomics.len()).collect();
         // main's start event
         let e = m.push_ev(0, 0, EK::Sync, NOLOC, MO::Rlx);
         m.th[0].start_ev = Some(e);
@@ -362,7 +376,7 @@ impl<'p> Machine<'p> {
                 st.flag || (self.cfg.reading == Reading::May && !st.spurious_used)
             }
             Op::Recv { c } => !self.chan[c as usize].queue.is_empty(),
-            Op::Await { a, o, v } => !self.read_candidates(t, a, o, Some(v), false).is_empty(),
+            Op::Await { a, o, v } | Op::AwaitY { a, o, v } => !self.read_candidates(t, a, o, Some(v), false).is_empty(),
             _ => true,
         }
     }
@@ -442,7 +456,7 @@ impl<'p> Machine<'p> {
     pub fn spin_read(&mut self, t: usize, v: u64, ch: &mut dyn Choose) -> Result<(), StepErr> {
         let pc = self.th[t].pc;
         let (a, o) = match self.cur_op(t).and_then(|o| self.effective(t, o)) {
-            Some(Op::Await { a, o, .. }) => (*a, *o),
+            Some(Op::Await { a, o, .. }) | Some(Op::AwaitY { a, o, .. }) => (*a, *o),
             _ => return Err(StepErr::Reject(format!("T{}: spin event outside an await", t))),
         };
         let w = self.pick_read(t, a, o, false, Some(v), ch)?;
@@ -482,6 +496,16 @@ impl<'p> Machine<'p> {
             if rmw && self.cfg.rmw_reads_mo_max_only && *self.g.mo[a as usize].last().unwrap() != w {
                 continue;
             }
+            if self.cfg.yield_prunes_seen && self.th[t].seen_before_yield.contains(&w) && *self.g.mo[a as usize].last().unwrap() != w {
+                continue;
+            }
+            if self.cfg.sc_load_skips_overwritten_sc_store && o.is_sc() && self.g.evs[w].ord.is_sc() && self.g.evs[w].tid != INIT_TID {
+                let m = &self.g.mo[a as usize];
+                let pos = m.iter().position(|&x| x == w).unwrap();
+                if m[pos + 1..].iter().any(|&x| self.g.evs[x].ord.is_sc() && self.g.evs[x].kind != EK::R) {
+                    continue;
+                }
+            }
             // tentative read
             let pc = self.th[t].pc;
             let e = self.g.push(Ev {
@@ -517,6 +541,7 @@ impl<'p> Machine<'p> {
         self.g.evs[e].rval = self.g.evs[w].wval;
         self.g.evs[e].na = na;
         self.g.rf[e] = Some(w);
+        self.th[t].seen.push(w);
         e
     }
 
@@ -525,6 +550,7 @@ impl<'p> Machine<'p> {
         self.g.evs[e].wval = v;
         self.g.evs[e].na = na;
         self.g.evs[e].na_write = na;
+        self.th[t].seen.push(e);
         if self.guided {
             return e;
         }
@@ -552,6 +578,8 @@ impl<'p> Machine<'p> {
         self.g.evs[e].rval = self.g.evs[w].wval;
         self.g.evs[e].wval = newv;
         self.g.rf[e] = Some(w);
+        self.th[t].seen.push(w);
+        self.th[t].seen.push(e);
         if !self.guided {
             let pos = self.g.mo[a as usize].iter().position(|&x| x == w).unwrap();
             if pos + 1 != self.g.mo[a as usize].len() {
@@ -608,7 +636,11 @@ impl<'p> Machine<'p> {
                 self.do_read(t, pc, a, o, w, false);
                 res = Some(self.g.evs[w].wval);
             }
-            Op::Await { a, o, v } => {
+            Op::Await { a, o, v } | Op::AwaitY { a, o, v } => {
+                if matches!(op, Op::AwaitY { .. }) {
+                    // a definite yield
+                    self.th[t].seen_before_yield = self.th[t].seen.clone();
+                }
                 let cands = self.read_candidates(t, a, o, Some(v), false);
                 if cands.is_empty() {
                     return Err(StepErr::Reject(format!("T{} await: value {} not readable", t, v)));
